@@ -663,5 +663,27 @@ func genC09(rng *hx.Rng, tier string, w *hx.Writer) error {
 				Tags: []string{gtag, "pri-mul", "nt"}})
 		}
 	}
+	// large qualifying sets: products of 20 and more abscissae, low indices and indices near the top
+	for _, grp := range []int{GrpG2, GrpEd} {
+		q := OrderOf(grp)
+		for _, cfg := range [][3]int{{21, 24, 0}, {24, 30, 0}, {12, 64, 52}, {33, 40, 3}, {64, 64, 0}} {
+			t, n, first := cfg[0], cfg[1], cfg[2]
+			coeffs := randCoeffs(rng, t, q)
+			var ents []shareEnt
+			for j := 0; j < t; j++ {
+				ents = append(ents, shareEnt{"ok", first + j, refEval(coeffs, first+j, q)})
+			}
+			pm := rng.Perm(len(ents))
+			sh := make([]shareEnt, len(ents))
+			for a, b := range pm {
+				sh[a] = ents[b]
+			}
+			ents = sh
+			c09Recover(rng, w, grp, t, n, coeffs, ents, 2)
+			if t <= 33 {
+				c09Recover(rng, w, grp, t, n, coeffs, ents, 3)
+			}
+		}
+	}
 	return nil
 }
